@@ -10,7 +10,7 @@ import common as C
 
 # tag -> owning property (core:* are resolved by context, see owner_of)
 TAG_OWNER = {
-    "route": "C01", "alloc": "C05", "time": "C12", "book": "C13", "stream": "C10", "close": "C04",
+    "route": "C01", "alloc": "C05", "time": "C12", "book:more": "C13", "stream": "C10", "close": "C04",
     "inv:NoLeak": "C13", "inv:UniqueIds": "C05", "inv:WireUnique": "C05", "inv:IdRange": "C05", "inv:Protected": "C05",
     "inv:TimeoutExact": "C12", "inv:FailFast": "C04", "inv:StreamOK": "C10",
 }
@@ -45,7 +45,7 @@ def owner_of(tag, events, idx):
     """Owner of a diagnosis at 1-based event index idx (None = nobody: a difference no property forbids)."""
     if tag in TAG_OWNER:
         return TAG_OWNER[tag]
-    if tag == "xscrub":
+    if tag in ("xscrub", "book:less"):
         return None
     if tag.startswith("core:"):
         ev = events[idx - 1]
